@@ -17,7 +17,9 @@ from datetime import datetime
 import xmltodict
 from dateutil.parser import parse
 
-from .utils.xml import remove_node, replace_node, insert_node, find_child, append_node
+from .utils.xml import (
+    remove_node, replace_node, insert_node, find_child, append_node, move_nodes
+)
 from .utils import s3
 from .moselements import Story, Item
 from .exc import (
@@ -830,7 +832,7 @@ class StoryMove(MosFile):
         story is to be moved
         """
         stories = self.base_tag.findall('storyID')
-        if len(stories) < 2:
+        if len(stories) < 2 or stories[1].text is None:
             return
         return Story(self.base_tag, id=stories[1].text, unknown_items=True)
 
@@ -843,7 +845,7 @@ class StoryMove(MosFile):
                 f"{self.__class__.__name__} error in {self.message_id} - no stories given"
             )
         if self.target_story is None:
-            target_story_index = len(ro.base_tag)
+            target_story = None
         else:
             target_story, target_story_index = find_child(parent=ro.base_tag, child_tag='story', id=self.target_story.id)
             if target_story is None:
@@ -855,8 +857,8 @@ class StoryMove(MosFile):
             raise MosMergeError(
                 f"{self.__class__.__name__} error in {self.message_id} - source story not found"
             )
-        remove_node(parent=ro.base_tag, node=source_story)
-        insert_node(parent=ro.base_tag, node=source_story, index=target_story_index)
+        if source_story is not target_story:
+            move_nodes(parent=ro.base_tag, nodes=[source_story], before=target_story)
         return ro
 
     def inspect(self):
@@ -944,7 +946,7 @@ class ItemMoveMultiple(MosFile):
             )
 
         if self.item is None:
-            target_item_index = len(story)
+            target_item = None
         else:
             target_item, target_item_index = find_child(parent=story, child_tag='item', id=self.item.id)
             if target_item is None:
@@ -952,14 +954,19 @@ class ItemMoveMultiple(MosFile):
                     f"{self.__class__.__name__} error in {self.message_id} - target item not found"
                 )
 
-        for i, item in enumerate(self.items, start=target_item_index):
+        source_items = []
+        for item in self.items:
             source_item, source_item_index = find_child(parent=story, child_tag='item', id=item.id)
-            if source_item_index is None:
+            if source_item is None:
                 raise MosMergeError(
                     f"{self.__class__.__name__} error in {self.message_id} - source item not found"
                 )
-            remove_node(parent=story, node=source_item)
-            insert_node(parent=story, node=source_item, index=i)
+            if source_item is target_item or any(source_item is i for i in source_items):
+                raise MosMergeError(
+                    f"{self.__class__.__name__} error in {self.message_id} - duplicate item"
+                )
+            source_items.append(source_item)
+        move_nodes(parent=story, nodes=source_items, before=target_item)
 
         return ro
 
@@ -1872,8 +1879,8 @@ class EAStoryMove(ElementAction):
         """
         Merge into the :class:`RunningOrder` object provided.
         """
-        if self.story is None:
-            target_story_index = len(ro.base_tag)
+        if self.story is None or self.story.id is None:
+            target_story = None
         else:
             target_story, target_story_index = find_child(parent=ro.base_tag, child_tag='story', id=self.story.id)
             if target_story is None:
@@ -1881,14 +1888,19 @@ class EAStoryMove(ElementAction):
                     f"{self.__class__.__name__} error in {self.message_id} - target story not found"
                 )
 
+        stories = []
         for source_story in self.stories:
             story, source_index = find_child(parent=ro.base_tag, child_tag='story', id=source_story.id)
             if story is None:
                 raise MosMergeError(
                     f"{self.__class__.__name__} error in {self.message_id} - source story not found"
                 )
-            remove_node(parent=ro.base_tag, node=story)
-            insert_node(parent=ro.base_tag, node=story, index=target_story_index)
+            if story is target_story or any(story is s for s in stories):
+                raise MosMergeError(
+                    f"{self.__class__.__name__} error in {self.message_id} - duplicate story"
+                )
+            stories.append(story)
+        move_nodes(parent=ro.base_tag, nodes=stories, before=target_story)
         return ro
 
     def inspect(self):
@@ -1953,19 +1965,28 @@ class EAItemMove(ElementAction):
             raise MosMergeError(
                 f"{self.__class__.__name__} error in {self.message_id} - story not found"
             )
-        target_item, target_item_index = find_child(parent=story, child_tag='item', id=self.item.id)
-        if target_item is None:
-            raise MosMergeError(
-                f"{self.__class__.__name__} error in {self.message_id} - target item not found"
-            )
-        for i, source_item in enumerate(self.items, start=target_item_index):
+        if self.item.id is None:
+            # move to bottom
+            target_item = None
+        else:
+            target_item, target_item_index = find_child(parent=story, child_tag='item', id=self.item.id)
+            if target_item is None:
+                raise MosMergeError(
+                    f"{self.__class__.__name__} error in {self.message_id} - target item not found"
+                )
+        items = []
+        for source_item in self.items:
             item, item_index = find_child(parent=story, child_tag='item', id=source_item.id)
             if item is None:
                 raise MosMergeError(
                     f"{self.__class__.__name__} error in {self.message_id} - source item not found"
                 )
-            remove_node(parent=story, node=item)
-            insert_node(parent=story, node=item, index=i)
+            if item is target_item or any(item is i for i in items):
+                raise MosMergeError(
+                    f"{self.__class__.__name__} error in {self.message_id} - duplicate item"
+                )
+            items.append(item)
+        move_nodes(parent=story, nodes=items, before=target_item)
         return ro
 
     def inspect(self):
